@@ -1088,9 +1088,13 @@ static int run_check(const std::string &prop, const std::string &tier)
 // ---------------------------------------------------------------- determinism self-test
 static int selftest_determinism(const std::string &prop, uint64_t n)
 {
-        const CheckDef *cdp = find_check(prop);
-        if (!cdp)
+        const CheckDef *cdp0 = find_check(prop);
+        if (!cdp0)
                 return 2;
+        CheckDef cdv = *cdp0;
+        if (g_fips_build && !cdv.fips && !cdv.fips_companion.empty())
+                cdv.sims = cdv.fips_companion; // the FIPS-build pass of a std-build check
+        const CheckDef *cdp = &cdv;
         g_focus = prop;
         uint64_t verif_seed = 1;
         if (const char *s = getenv("VERIF_SEED"))
